@@ -164,7 +164,7 @@ def format_datetime(dttm):
 
     if dttm.tzinfo is None or dttm.tzinfo.utcoffset(dttm) is None:
         # dttm is timezone-naive; assume UTC
-        zoned = pytz.utc.localize(dttm)
+        zoned = pytz.utc.localize(dttm.replace(tzinfo=None))
     else:
         zoned = dttm.astimezone(pytz.utc)
     # strftime('%Y') does not zero-pad years below 1000 on all platforms
